@@ -215,8 +215,8 @@ Proof. intro H. unfold cmd_incrby. rewrite H. reflexivity. Qed.
 Lemma cmd_decrby_core now d k nb n :
   parse_i64 nb = Some n -> n <> min_i64 -> cmd_incrby (-1) now d [k; nb] = incr_core now d k (- n).
 Proof.
-  intros H Hn. unfold cmd_incrby. rewrite H. cbn [Z.eqb]. rewrite wrap64_id; [reflexivity|].
-  apply parse_i64_in in H. apply in_i64_iff in H. apply in_i64_iff. unfold min_i64 in Hn. lia.
+  intros H Hn. unfold cmd_incrby. rewrite H. cbn [Z.eqb andb].
+  apply Z.eqb_neq in Hn. rewrite Hn. reflexivity.
 Qed.
 
 Theorem cmd_incr_missing delta now d k :
@@ -470,6 +470,7 @@ Lemma cmd_incrby_err_inert sign now d args s :
 Proof.
   unfold cmd_incrby. destruct args as [|k [|n [|x r]]]; try reflexivity.
   destruct (parse_i64 n); try reflexivity.
+  destruct ((sign =? -1) && (z =? min_i64)); [reflexivity|].
   intro H. apply incr_core_err_inert. eauto.
 Qed.
 
@@ -1087,7 +1088,8 @@ Theorem cmd_incrby_frame sign now d k rest k' :
   k' <> k -> lookup now (fst (cmd_incrby sign now d (k :: rest))) k' = lookup now d k'.
 Proof.
   intro Hne. unfold cmd_incrby. destruct rest as [|n [|x r]]; try reflexivity.
-  destruct (parse_i64 n); [|reflexivity]. apply incr_core_frame. exact Hne.
+  destruct (parse_i64 n); [|reflexivity].
+  destruct ((sign =? -1) && (z =? min_i64)); [reflexivity|]. apply incr_core_frame. exact Hne.
 Qed.
 Print Assumptions cmd_incrby_frame.
 
@@ -1150,32 +1152,23 @@ Proof.
 Qed.
 Print Assumptions mset_all.
 
-(* DECRBY with the decrement LLONG_MIN.  [cmd_decrby_ok] above excludes n = min_i64
-   because the model (like the Go code, which computes -decrement in int64) negates
-   with wrap-around: the delta is min_i64 itself, so for a stored v >= 0 the command
-   SUCCEEDS and stores v + min_i64, although the true difference v - min_i64 is not
-   representable.  Redis 7 decrbyCommand rejects this argument up front
-   ("ERR decrement would overflow").  Recorded here as a proved deviation. *)
-Theorem decrby_min_i64_deviation now d k nb e b v :
+(* DECRBY with the decrement LLONG_MIN: -decrement is not representable, so the command is
+   refused up front and changes nothing (Redis 7 decrbyCommand: "decrement would overflow").
+   The Go code used to negate in int64 (wrapping back to LLONG_MIN) and succeed; it was repaired
+   together with this model ("fix: DECRBY of the most negative integer is refused"). *)
+Theorem decrby_min_i64_refused now d k nb :
   parse_i64 nb = Some min_i64 ->
-  lookup now d k = Some e -> e_val e = VStr b -> strict_i64 b = Some v -> 0 <= v ->
-  cmd_incrby (-1) now d [k; nb] =
-    (put d k (VStr (Z_to_bytes (v + min_i64))) (e_exp e), RInt (v + min_i64)) /\
-  in_i64 (v - min_i64) = false.
+  (exists s, snd (cmd_incrby (-1) now d [k; nb]) = RErr s) /\ fst (cmd_incrby (-1) now d [k; nb]) = d.
 Proof.
-  intros Hp Hl Hb Hs Hv. pose proof (strict_i64_in _ _ Hs) as Hin. apply in_i64_iff in Hin.
-  split.
-  - unfold cmd_incrby. rewrite Hp. cbn [Z.eqb].
-    assert (Hw : wrap64 (- min_i64) = min_i64) by (vm_compute; reflexivity). rewrite Hw.
-    eapply incr_core_ok; eauto. apply in_i64_iff. unfold min_i64. lia.
-  - apply in_i64_false_iff. unfold min_i64. lia.
+  intros Hp. unfold cmd_incrby. rewrite Hp. cbn [Z.eqb andb]. rewrite Z.eqb_refl.
+  split; [eexists; reflexivity | reflexivity].
 Qed.
-Print Assumptions decrby_min_i64_deviation.
+Print Assumptions decrby_min_i64_refused.
 
 Example decrby_min_ex :
   let d := fst (cmd_set 0 empty_db [s2b "k"%string; s2b "5"%string]) in
-  snd (cmd_incrby (-1) 0 d [s2b "k"%string; s2b "-9223372036854775808"%string]) = RInt (-9223372036854775803).
-Proof. vm_compute. reflexivity. Qed.
+  exists s, snd (cmd_incrby (-1) 0 d [s2b "k"%string; s2b "-9223372036854775808"%string]) = RErr s.
+Proof. eexists. vm_compute. reflexivity. Qed.
 
 (* APPEND keeps the deadline and replies the new length; STRLEN/GET read the string *)
 Theorem cmd_append_spec now d k v :
